@@ -18,6 +18,7 @@ fn main() {
         std::process::exit(2);
     }
     let mode = args[1].as_str();
+    util::install_panic_hook();
     let res = std::panic::catch_unwind(|| match mode {
         "store" => store_mode::main(&args[2], &args[3], &args[4], args.get(5).map(|s| s.as_str()).unwrap_or("mem")),
         "engine" => engine_mode::main(&args[2], &args[3], &args[4], &args[5..]),
